@@ -245,7 +245,15 @@ func (fr *Frame) loopHead(l *Loop, st *State) {
 			}
 		}
 	}
+	if hasCall && !hasSync {
+		// the lock sets are untouched by a loop without lock operations: pin their current values
+		st.ghosts["held"] = fc.heldSet(st)
+		st.ghosts["rheld"] = fc.rheldSet(st)
+	}
 	if hasCall {
+		// ghosts that are not materialised yet get fresh values too (new epoch)
+		fc.epochs++
+		st.gEpoch = fc.epochs
 		for k, g := range st.ghosts {
 			if strings.HasPrefix(k, "seen:") || strings.HasPrefix(k, "seencnt:") {
 				continue
